@@ -34,7 +34,7 @@
 #define NUM_STRMAX (NUM_MAXLEN + 2)
 #endif
 
-int g_num_calls;
+unsigned g_num_calls;
 int g_num_nd;
 int g_num_neg;
 int g_num_ovf;
